@@ -250,8 +250,11 @@ def r17_keyspace_recursion_counts(ctx, rule):
     q = 'lib_trainer/omen/evaluate_password.py::_rec_calc_keyspace'
     fn = ctx.fn(q)
     ctx.stats['functions'].add(q)
-    cells = [st for st in walk_local(fn) if isinstance(st, ast.AugAssign) and isinstance(st.op, ast.Add) and isinstance(st.target, ast.Subscript)]
-    inits = [st for st in walk_local(fn) if isinstance(st, ast.Assign) and len(st.targets) == 1 and isinstance(st.targets[0], ast.Subscript)
+    # the cell itself, or a local accumulator that is stored into the cell afterwards
+    cells = [st for st in walk_local(fn) if isinstance(st, ast.AugAssign) and isinstance(st.op, ast.Add) and isinstance(st.target, (ast.Subscript, ast.Name))
+             and ((isinstance(const(st.value), int) and not isinstance(const(st.value), bool))
+                  or (isinstance(st.value, ast.Call) and call_name(st.value) == '_rec_calc_keyspace') or isinstance(st.target, ast.Subscript))]
+    inits = [st for st in walk_local(fn) if isinstance(st, ast.Assign) and len(st.targets) == 1 and isinstance(st.targets[0], (ast.Subscript, ast.Name))
              and isinstance(const(st.value), int) and not isinstance(const(st.value), bool)]
     if not ctx.floor(rule, q, len(cells), 2, 'accumulations in the keyspace recursion'):
         return
